@@ -17,6 +17,16 @@ moment at which nothing has arrived yet; the remainder is one more segment. `ops
 `res`: `T<hex>`/`B<hex>` message, `N` nothing yet, `E:<WebsocketError>`, `S` sent, `D` dropped.
 `writes`: hex of every `write` call during the op, joined by `.`.
 
+Run-length forms (large scripts stay small in the case line): an item of `frames`, `delivery` and `ops` may be
+`<count>*<group>`, a group being items joined by `+` (`20000*1.000.10.0.00000000.` = 20 000 empty Pongs,
+`1000*0.000.0.1.a1b2c3d4.62+1.000.9.0.00000000.` = 1 000 times fragment-then-Ping, `200000*2` = 200 000
+two-byte segments, `10002*r`). A frame's payload is hex or `g<len>s<seed>` = the `len` bytes
+`(31 i + 7 (i / 251) + seed) mod 256`. In the OUTPUT a run of two or more identical consecutive writes of
+an op is `<count>*<hex>`, a run of identical consecutive entries `<count>*<entry>`, and a message payload
+of more than 100 000 bytes is `#<len>:<FNV-1a 64>` (both sides, and the spec's expected message, are
+rendered the same way). `ABORT` / `TIMEOUT` (the session ran in a worker process that died / did not
+answer) are judged `process-aborted` / `no-answer-within-watchdog`.
+
 `Verdict.model` comes from `Model/WsMsg.lean` run on the byte-level script; `Verdict.spec` judges the
 IMPLEMENTATION's output by `Spec/WsMsg.lean` alone: every write parses as unmasked well-formed frames
 (`framesOf`), and results and replies per call are those of `Spec.Client.recv` on the frame list.
@@ -95,6 +105,59 @@ def mapM? {α β : Type} (f : α → Option β) : List α → Option (List β)
 def bit? (s : String) : Option Bool :=
   if s == "1" then some true else if s == "0" then some false else none
 
+/-- `<count>*<rest>` → `(count, rest)`; anything else → `(1, s)`. -/
+def count? (s : String) : Nat × String :=
+  match s.splitOn "*" with
+  | n :: r :: rs =>
+    (match n.toNat? with
+     | some k => (k, "*".intercalate (r :: rs))
+     | none => (1, s))
+  | _ => (1, s)
+
+/-- Items joined by `sep`, each `[count*]a+b+…`, expanded. -/
+def expandWith {α : Type} (parse : String → Option α) (sep : String) (s : String) : Option (List α) :=
+  (mapM? (fun (item : String) =>
+    let (k, body) := count? item
+    (mapM? parse (body.splitOn "+")).map (fun g => (List.replicate k g).flatten)) (s.splitOn sep)).map
+    List.flatten
+
+/-- Run-length form of a list of texts: a run of `k ≥ 2` equal neighbours becomes `k*text`. -/
+def rleGo : List String → String → Nat → List String → List String
+  | [], cur, k, acc => ((if k ≥ 2 then toString k ++ "*" ++ cur else cur) :: acc).reverse
+  | x :: xs, cur, k, acc =>
+    if x == cur then rleGo xs cur (k + 1) acc
+    else rleGo xs x 1 ((if k ≥ 2 then toString k ++ "*" ++ cur else cur) :: acc)
+
+def rle : List String → List String
+  | [] => []
+  | x :: xs => rleGo xs x 1 []
+
+/-- FNV-1a, 64 bit. -/
+def fnv (b : Bytes) : UInt64 :=
+  b.foldl (fun h x => (h ^^^ x.toUInt64) * 0x100000001b3) 0xcbf29ce484222325
+
+def hex64 (n : UInt64) : String :=
+  String.ofList ((List.range 16).map (fun i =>
+    hexDigit ((n >>> ((15 - i) * 4).toUInt64) &&& 15).toUInt8))
+
+/-- Payload of a delivered message: hex, or length and hash above 100 000 bytes. -/
+def payloadText (p : Bytes) : String :=
+  if p.length > 100000 then s!"#{p.length}:{hex64 (fnv p)}" else hex p
+
+/-- `g<len>s<seed>`: the generated payload `(31 i + 7 (i / 251) + seed) mod 256`. -/
+def genPayload (len seed : Nat) : Bytes :=
+  (List.range len).map (fun i => ((31 * i + 7 * (i / 251) + seed) % 256).toUInt8)
+
+def payload? (s : String) : Option Bytes :=
+  if s.startsWith "g" then
+    match (s.drop 1).toString.splitOn "s" with
+    | [l, sd] => do
+      let l ← l.toNat?
+      let sd ← sd.toNat?
+      pure (genPayload l sd)
+    | _ => none
+  else unhex s
+
 def frame? (s : String) : Option Frame :=
   match s.splitOn "." with
   | [fin, rsv, opcode, mask, key, payload] => do
@@ -108,20 +171,20 @@ def frame? (s : String) : Option Frame :=
     let op ← (← opcode.toNat?) |> Opcode.ofNat?
     let mask ← bit? mask
     let key ← (match unhex key with | some [a, b, c, d] => some (Key.mk a b c d) | _ => none)
-    let payload ← unhex payload
+    let payload ← payload? payload
     pure { fin := fin, rsv1 := r1, rsv2 := r2, rsv3 := r3, opcode := op, mask := mask,
            length := payload.length, key := key, payload := payload }
   | _ => none
 
 def frames? (s : String) : Option (List Frame) :=
-  if s == "-" then some [] else mapM? frame? (s.splitOn ",")
+  if s == "-" then some [] else expandWith frame? "," s
 
 inductive Item | seg (k : Nat) | notYet
 
 def delivery? (s : String) : Option (List Item) :=
   if s == "-" then some []
-  else mapM? (fun x => if x == "n" then some Item.notYet else
-    match x.toNat? with | some (k + 1) => some (Item.seg (k + 1)) | _ => none) (s.splitOn ",")
+  else expandWith (fun x => if x == "n" then some Item.notYet else
+    match x.toNat? with | some (k + 1) => some (Item.seg (k + 1)) | _ => none) "," s
 
 /-- The scripted socket the harness builds from the byte stream and the delivery. -/
 def events : List Item → Bytes → List Ev
@@ -144,7 +207,7 @@ def op? (s : String) : Option Op :=
   else none
 
 def ops? (s : String) : Option (List Op) :=
-  if s == "-" then some [] else mapM? op? (s.splitOn ",")
+  if s == "-" then some [] else expandWith op? "," s
 
 /-! ### Model run -/
 
@@ -153,28 +216,30 @@ def errText : RecvErr → String
   | .connectionClosed => "E:ConnectionClosed"
 
 def resultText : Result → String
-  | .message t p => (if t then "T" else "B") ++ hex p
+  | .message t p => (if t then "T" else "B") ++ payloadText p
   | .err e => errText e
   | .none => "N"
   | .outOfFuel => "OUT-OF-FUEL"
 
-def writesText (ws : List Bytes) : String := ".".intercalate (ws.map hex)
+def writesText (ws : List Bytes) : String := ".".intercalate (rle (ws.map hex))
 
-/-- One op on the model; the text of its entry. -/
+/-- One op on the model; the text of its entry. The outbound log only ever grows at its end and is never
+read by the model, so each op is run on an empty log and what it wrote is the log afterwards (a
+connection with 10 000 earlier writes would otherwise cost 10 000 cells per call). -/
 def runOp (c : Conn) (o : Op) : String × Conn :=
-  let before := c.outbound.length
+  let c0 : Conn := { c with outbound := [] }
   let (r, c') : String × Conn :=
     match o with
-    | .recv => let p := recvBlocking c; (resultText p.1, p.2)
-    | .recvNb => let p := recvNonblocking c; (resultText p.1, p.2)
-    | .ping => ("S", WsMsg.ping c)
-    | .send t p => ("S", WsMsg.send c t p)
-  (r ++ "/" ++ writesText (c'.outbound.drop before), c')
+    | .recv => let p := recvBlocking c0; (resultText p.1, p.2)
+    | .recvNb => let p := recvNonblocking c0; (resultText p.1, p.2)
+    | .ping => ("S", WsMsg.ping c0)
+    | .send t p => ("S", WsMsg.send c0 t p)
+  (r ++ "/" ++ writesText c'.outbound, c')
 
 def runOps : List Op → Conn → List String → String
   | [], c, acc =>
-    let c' := dropStream c
-    ";".intercalate (acc.reverse ++ ["D/" ++ writesText (c'.outbound.drop c.outbound.length)])
+    let c' := dropStream { c with outbound := [] }
+    ";".intercalate (rle (acc.reverse ++ ["D/" ++ writesText c'.outbound]))
   | o :: os, c, acc => let (t, c') := runOp c o; runOps os c' (t :: acc)
 
 /-! ### Spec verdict on the implementation's output -/
@@ -184,13 +249,25 @@ def entry? (s : String) : Option (String × Option (List Frame)) :=
   match s.splitOn "/" with
   | [r, w] =>
     if w.isEmpty then some (r, some [])
-    else match mapM? unhex (w.splitOn ".") with
+    else
+      let items := (w.splitOn ".").map count?
+      match mapM? (fun (kx : Nat × String) => (unhex kx.2).map (fun b => (kx.1, b))) items with
       | none => some (r, none)
-      | some ws => some (r, Spec.framesOf ws.flatten)
+      | some ws =>
+        -- a write that is whole frames by itself is read once, whatever its repeat count; otherwise a
+        -- frame may straddle `write` calls: the writes of the op are read as one byte string
+        match mapM? (fun (kb : Nat × Bytes) =>
+                (Spec.framesOf kb.2).map (fun fs => (List.replicate kb.1 fs).flatten)) ws with
+        | some fss => some (r, some fss.flatten)
+        | none => some (r, Spec.framesOf (ws.map (fun kb => (List.replicate kb.1 kb.2).flatten)).flatten)
   | _ => none
 
+/-- The entries of an output line, run-length forms expanded. -/
+def entries (impl : String) : List String :=
+  ((impl.splitOn ";").map (fun e => let (k, body) := count? e; List.replicate k body)).flatten
+
 def outcomeText : Spec.Outcome → String
-  | .message m => (if m.text then "T" else "B") ++ hex m.payload
+  | .message m => (if m.text then "T" else "B") ++ payloadText m.payload
   | .closed => "E:ConnectionClosed"
   | .lost => "E:ReadError"
   | .nothing => "N"
@@ -322,7 +399,10 @@ def dispatch (fn : String) (args : List String) (impl : String) : Option Verdict
       let c : Conn := { inbound := events d bytes }
       let m := runOps os c []
       let cl : Spec.Client := ⟨fs, 0, min keep (Spec.wire fs).length, gapsOf d 0 (min keep (Spec.wire fs).length)⟩
-      let why := judge os cl false (impl.splitOn ";")
+      let why :=
+        if impl == "ABORT" then "process-aborted"
+        else if impl == "TIMEOUT" then "no-answer-within-watchdog"
+        else judge os cl false (entries impl)
       some { model := m, spec := some why.isEmpty, reason := why }
     | _, _, _, _ => some { model := "BADARGS" }
   | _, _ => none
